@@ -495,3 +495,94 @@ class Director:
         if p["close"]:
             self.close()
         return self.mf
+
+
+# ------------------------------------------------------------------------------------------
+# G-mut: mutated recordings (realistic ladders from tests/resources with hostile events spliced in)
+# ------------------------------------------------------------------------------------------
+
+RECORDED = ("1.197931750", "1.197931751")  # greyhound WIN + PLACE of one event, 166 lines each, 1 s apart
+
+
+def load_recording(repo_root, market_id):
+    import os
+
+    path = os.path.join(repo_root, "tests", "resources", market_id)
+    if not os.path.exists(path):  # scratch copies of the repository may leave the data files out
+        path = os.path.join("/repo", "tests", "resources", market_id)
+    with open(path) as f:
+        return [json.loads(l) for l in f if l.strip()]
+
+
+def mutate_recording(lines, rng, p_suspend=0.5, p_removal=0.4, truncate=True):
+    """Splice version-changing SUSPEND -> re-OPEN cycles and a runner removal (with a factor) into a recorded file.
+    New lines carry the latest marketDefinition with the change and get a publish time between their neighbours."""
+    lines = copy.deepcopy(lines)
+    mid = lines[0]["mc"][0]["id"]
+    md = copy.deepcopy(lines[0]["mc"][0]["marketDefinition"])
+    if truncate:
+        # keep the head and the closing tail: shorter runs, same ladders
+        keep = rng.randint(20, 60)
+        lines = lines[:keep] + lines[-2:]
+        for j, l in enumerate(lines[-2:]):
+            l["pt"] = lines[keep - 1]["pt"] + 1000 * (j + 1)
+    out = []
+    n = len(lines)
+    sus_at = rng.randrange(3, n - 3) if rng.random() < p_suspend else None
+    rem_at = rng.randrange(3, n - 3) if rng.random() < p_removal else None
+    removed = None
+    clk = 0
+    for i, l in enumerate(lines):
+        mc = l["mc"][0]
+        if "marketDefinition" in mc:
+            new = mc["marketDefinition"]
+            if removed is not None:
+                for r in new["runners"]:
+                    if r["id"] == removed[0]:
+                        r["status"] = "REMOVED"
+                        r["adjustmentFactor"] = removed[1]
+                        r["removalDate"] = removed[2]
+                    elif removed[1] is not None:
+                        r.setdefault("adjustmentFactor", removed[3].get(r["id"]))
+                new["numberOfActiveRunners"] = sum(1 for r in new["runners"] if r["status"] == "ACTIVE")
+            md = copy.deepcopy(new)
+        out.append(l)
+        if i in (sus_at, rem_at) and i + 1 < n - 2:
+            t = l["pt"]
+            gap = max(2, lines[i + 1]["pt"] - t)
+            if i == rem_at and removed is None:
+                act = [r for r in md["runners"] if r["status"] == "ACTIVE"]
+                if len(act) > 3:
+                    victim = rng.choice(act)
+                    f = rng.choice((None, 2.4, 2.5, 14.0, 40.0))
+                    others = {}
+                    if f is not None:
+                        share = (100.0 - f) / (len(act) - 1)
+                        others = {r["id"]: round(share, 2) for r in act if r["id"] != victim["id"]}
+                    removed = (victim["id"], f, iso(t), others)
+                    md2 = copy.deepcopy(md)
+                    for r in md2["runners"]:
+                        if r["id"] == victim["id"]:
+                            r["status"] = "REMOVED"
+                            r["removalDate"] = iso(t)
+                            if f is not None:
+                                r["adjustmentFactor"] = f
+                        elif f is not None:
+                            r["adjustmentFactor"] = others[r["id"]]
+                    md2["numberOfActiveRunners"] = len(act) - 1
+                    md2["version"] = md["version"] + 7
+                    md = md2
+                    clk += 1
+                    out.append({"op": "mcm", "clk": "M%d" % clk, "pt": t + gap // 3, "mc": [{"id": mid, "marketDefinition": copy.deepcopy(md)}]})
+            if i == sus_at:
+                md2 = copy.deepcopy(md)
+                md2["status"] = "SUSPENDED"
+                md2["version"] = md["version"] + 3
+                clk += 1
+                out.append({"op": "mcm", "clk": "M%d" % clk, "pt": t + gap // 2, "mc": [{"id": mid, "marketDefinition": copy.deepcopy(md2)}]})
+                md3 = copy.deepcopy(md2)
+                md3["status"] = "OPEN"
+                md = md3
+                clk += 1
+                out.append({"op": "mcm", "clk": "M%d" % clk, "pt": t + gap // 2 + max(1, gap // 4), "mc": [{"id": mid, "marketDefinition": copy.deepcopy(md3)}]})
+    return out
